@@ -3,7 +3,6 @@ package conv
 import (
 	"math"
 	"strconv"
-	"unicode/utf16"
 )
 
 // Kind is the ES5 type of a Value (8).
@@ -102,6 +101,8 @@ type Obj struct {
 	//   wrappers: Prim is the [[PrimitiveValue]]; BuiltinStr is what the class's toString returns.
 	Prim       *Value
 	BuiltinStr string
+	UnknownStr bool            // the built-in toString returns implementation-defined text (sets Ctx.Unknown when reached)
+	NoBuiltin  bool            // no built-in valueOf/toString is reachable (prototype chain ends in null before Object.prototype)
 	Names      map[string]bool // [[HasProperty]] = Names[name] (own and inherited names the check set up)
 	Proto      *Obj            // [[Prototype]] as far as instanceof can see
 	// functions:
@@ -142,12 +143,18 @@ type Quirks struct {
 	// StringIndexParseInt: String objects resolve index property names with strconv.ParseInt,
 	// so non-canonical spellings ("-0", "+1", "01") name an index property.
 	StringIndexParseInt bool
+	// LoneSurrogateFFFD: whenever an operator or conversion takes the text of a String
+	// operand, every lone surrogate code unit has become U+FFFD (strings are decoded to
+	// UTF-8). Operators that hand an operand through unconverted (&&, ||, comma, ?:) are not affected.
+	LoneSurrogateFFFD bool
 }
 
 // Ctx carries the coercion log of one evaluation.
 type Ctx struct {
 	Log []string
 	Q   Quirks
+	// Unknown is set when the evaluation used implementation-defined text.
+	Unknown bool
 	// IntCarrier: exact integer texts for operands carried in Go integer kinds
 	// (only consulted under Quirks.ExactIntString); keyed by the operand position "a"/"b".
 	fresh int
@@ -218,6 +225,12 @@ func (c *Ctx) invoke(o *Obj, name string) (Value, *Thrown, bool) {
 		return Value{}, &Thrown{Class: UserThrow}, true
 	}
 	// no scripted slot anywhere: built-in behaviour, nothing logged
+	if o.NoBuiltin {
+		return Value{}, nil, false
+	}
+	if name == "toString" && o.UnknownStr {
+		c.Unknown = true
+	}
 	if name == "valueOf" {
 		if o.Prim != nil {
 			return *o.Prim, nil, true
@@ -331,6 +344,9 @@ func (c *Ctx) ToString(v Value) (string, *Thrown) {
 		}
 		return NumberToString(v.N), nil
 	case String:
+		if c.Q.LoneSurrogateFFFD {
+			return replaceLone(v.S), nil
+		}
 		return v.S, nil
 	}
 	p, th := c.ToPrimitive(v, HintString)
@@ -373,9 +389,6 @@ func beyondInt64(x float64) bool {
 	}
 	return x >= 9223372036854775808.0 || x < -9223372036854775808.0
 }
-
-// Units returns the UTF-16 code units of a model string.
-func Units(s string) []uint16 { return utf16.Encode([]rune(s)) }
 
 // stringLess is the string branch of 11.8.5 step 4: lexicographic on code units.
 func stringLess(a, b string) bool {
